@@ -98,9 +98,9 @@ let cop_pending o =
 
 (* the sequential model and the atomic-step model run by one thread must agree (i / f / r only) *)
 let cross_check bits hint maxb ops =
-  if List.for_all (fun (n, _) -> n = "i" || n = "f" || n = "r") ops then begin
-    let cops = List.map (fun (_, o) -> match o with
-        | OIns (k, v) -> CIns (k, v) | OFind k -> CFind k | ORem k -> CRem k | _ -> assert false) ops in
+  if List.for_all (fun (n, _) -> n = "i" || n = "f" || n = "r" || n = "a") ops then begin
+    let cops = List.concat_map (fun (_, o) -> match o with
+        | OIns (k, v) -> [CIns (k, v)] | OFind k -> [CFind k] | ORem k -> [CRem k] | _ -> []) ops in
     let c0 = cinit (nat_of_int bits) (z_of_int hint) (z_of_int maxb) [cops] in
     let (c, _, dl) = run_sched c0 1 [] 100000 in
     let (_, h) = run_ops (ht_init (nat_of_int bits) (z_of_int hint) (z_of_int maxb)) (List.map snd ops) in
